@@ -51,9 +51,9 @@ def r10a(ck, prog):
             where = site(prog, m, "gaps")
             if p is not None and p.k == "CallExpr":
                 ck.inst("R10a", where, "%s hands msa_seq.gaps to %s" % (name, p.callee), prog.config)
-                if p.callee != "update_gaps" or name != "make_seq":
+                if p.callee != "update_gaps":
                     ck.violation("R10a", "R10a/%s/gaps-to-%s" % (name, p.callee), where,
-                                 "%s passes a sequence's gap counts to %s: only make_seq -> update_gaps may change them" % (name, p.callee),
+                                 "%s passes a sequence's gap counts to %s: only update_gaps may change them" % (name, p.callee),
                                  prog.config)
             else:
                 mode = access_mode(m)
@@ -64,10 +64,6 @@ def r10a(ck, prog):
                 if pw or mode in ("write", "rmw"):
                     ck.violation("R10a", "R10a/%s/gaps-write" % name, where,
                                  "%s writes gap counts directly while aligning" % name, prog.config)
-    callers = [f for f, c in prog.callers_of("update_gaps") if "/tests/" not in f.file]
-    for f in callers:
-        if f.name != "make_seq":
-            ck.violation("R10a", "R10a/%s/calls-update_gaps" % f.name, site(prog, f), "%s calls update_gaps" % f.name, prog.config)
     ck.floor("R10a", n, 2, "uses of msa_seq.gaps in the merge phase")
 
 
@@ -165,7 +161,9 @@ def r10c(ck, prog):
     E = Effects(prog)
     calls = list(M.body.calls("update_gaps"))
     if len(calls) < 2:
-        raise AnalysisBroken("R10c slot: make_seq calls update_gaps %d time(s)" % len(calls))
+        where_else = sorted({f.name for f, c in prog.callers_of("update_gaps") if "/tests/" not in f.file})
+        raise AnalysisBroken("R10c: make_seq applies update_gaps %d time(s) itself (callers now: %s); uniform application to "
+                             "all members of both groups cannot be decided for this shape" % (len(calls), where_else))
     groups = {}
     pa, pb = M.params[1], M.params[2]
     for c in calls:
@@ -175,6 +173,11 @@ def r10c(ck, prog):
             ck.violation("R10c", "R10c/make_seq/not-in-loop", where, "update_gaps is not applied in a loop over the group's members", prog.config)
             continue
         lp = loops[0]
+        omp = [a for a in c.ancestors() if "omp" in a.d]
+        if omp:
+            ck.violation("R10c", "R10c/make_seq/omp-%s" % omp[0].d["omp"].split()[0], where,
+                         "the member loop runs under `omp %s`: its iterations are distributed over (or deferred to) other threads, so "
+                         "this call does not itself visit every member before make_seq returns" % omp[0].d["omp"], prog.config)
         seq0 = [m.kids[0].text() for m in c.args[0].find("MemberExpr") if m.d.get("field") == "len"]
         seq1 = [m.kids[0].text() for m in c.args[1].find("MemberExpr") if m.d.get("field") == "gaps"]
         vec = c.args[2].strip(casts=True)
